@@ -197,6 +197,24 @@ def _impl_block23(name):
 for _nm, _f in (('beltBlockEncr2', R.block_encr), ('beltBlockDecr2', R.block_decr), ('beltBlockEncr3', R.block_encr), ('beltBlockDecr3', R.block_decr)):
     reg(Composite('belt.' + _nm[4:5].lower() + _nm[5:], _impl_block23(_nm), (lambda f: lambda c: {'ret': 0, 'block': f(c['key'], c['block'])})(_f), group='belt'))
 
+# seam: length-block carries of belt-hash / DWP / CHE (the only way to see them without feeding 2^29 octets into one state);
+# internal non-static helpers of belt_lcl.c -- if a refactoring removes the symbol the sub-check reports 'skipped', never a failure
+def _impl_addbits(name, nbytes):
+    def impl(lib, c, A, fill):
+        if not lib.has(name):
+            return {'ret': 0, 'skipped': 1}
+        b = A.buf(c['block'])
+        lib.call(name, b, c['count'])
+        return {'ret': 0, 'block': b.get()}
+    return impl
+def _addbits_ref(nbytes):
+    def ref(c):
+        x = (int.from_bytes(c['block'], 'little') + 8 * c['count']) % (1 << (8 * nbytes))
+        return {'ret': 0, 'block': x.to_bytes(nbytes, 'little')}
+    return ref
+reg(Composite('belt.addBitSizeU32', _impl_addbits('beltBlockAddBitSizeU32', 16), _addbits_ref(16), group='belt'))
+reg(Composite('belt.addBitSizeW', _impl_addbits('beltHalfBlockAddBitSizeW', 8), _addbits_ref(8), group='belt'))
+
 def _impl_compr(lib, c, A, fill):
     h = A.buf(c['h']); x = A.buf(c['x']); s = A.buf(c.get('s', bytes(16)))
     stack = A.buf(lib.sz('beltCompr_deep'), fill)
@@ -354,6 +372,14 @@ def gen_cases(tier):
     for tl in range(0, 33):
         out.append(('belt.hashG2', dict(src=data(45), tlen=tl)))
         out.append(('belt.hmacG2', dict(src=data(45), key=data(40, 3), tlen=tl)))
+    # length-block carries: every word boundary of the counter x every boundary of 8 * count
+    cnts = sorted(set(v for e in (0, 13, 29, 32, 45, 61, 64) for v in ((1 << e) - 1, 1 << e, (1 << e) + 1, (1 << e) | 0x1FFFFFFF) if 0 <= v < 1 << 64) | {1, 2, 16, (1 << 64) - 1, 0x1234567890ABCDEF})
+    for nb, nm in ((16, 'belt.addBitSizeU32'), (8, 'belt.addBitSizeW')):
+        blks = [bytes(nb), b'\xff' * nb, data(nb)] + [((1 << (8 * k)) - 8).to_bytes(nb, 'little') for k in range(4, nb + 1, 4)] + \
+               [((1 << (8 * nb)) - (1 << (8 * k))).to_bytes(nb, 'little') for k in range(4, nb, 4)] + [(0xFFFFFFF8 << (8 * k)).to_bytes(nb, 'little') for k in range(0, nb - 3, 4)]
+        for b in blks:
+            for cn in cnts:
+                out.append((nm, dict(block=b, count=cn)))
     # compress
     for kd in (0, 1, 2, 3):
         out.append(('belt.compr2', dict(h=data(32, kd), x=data(32, (kd + 1) % 4), s=data(16, (kd + 2) % 4))))
